@@ -28,6 +28,7 @@ type nodeData struct {
 	archetypeData     pagedSlice[archetypeData]
 	neighbors         idMap[*archNode] // Mapping from component ID to add/remove, to the resulting archetype
 	capacityIncrement uint32           // Capacity increment
+	hasPointers       Mask             // Components that contain pointers and must be moved with write barriers
 }
 
 // Creates a new archNode
@@ -40,8 +41,12 @@ func newArchNode(mask Mask, data *nodeData, relation ID, hasRelation bool, capac
 	types := make([]reflect.Type, len(components))
 
 	var maxSize uintptr = 0
+	var hasPointers Mask
 	prev := -1
 	for i, c := range components {
+		if typeHasPointers(c.Type) {
+			hasPointers.Set(c.ID, true)
+		}
 		if int(c.ID.id) <= prev {
 			panic("component arguments must be sorted by ID")
 		}
@@ -69,6 +74,7 @@ func newArchNode(mask Mask, data *nodeData, relation ID, hasRelation bool, capac
 	data.capacityIncrement = uint32(capacityIncrement)
 	data.zeroValue = zeroValue
 	data.zeroPointer = zeroPointer
+	data.hasPointers = hasPointers
 	data.neighbors = newIDMap[*archNode]()
 
 	return archNode{
@@ -77,6 +83,26 @@ func newArchNode(mask Mask, data *nodeData, relation ID, hasRelation bool, capac
 		Relation:    relation,
 		HasRelation: hasRelation,
 	}
+}
+
+// typeHasPointers reports whether values of the type contain pointers the garbage collector needs to see.
+func typeHasPointers(tp reflect.Type) bool {
+	switch tp.Kind() {
+	case reflect.Bool, reflect.Int, reflect.Int8, reflect.Int16, reflect.Int32, reflect.Int64,
+		reflect.Uint, reflect.Uint8, reflect.Uint16, reflect.Uint32, reflect.Uint64, reflect.Uintptr,
+		reflect.Float32, reflect.Float64, reflect.Complex64, reflect.Complex128:
+		return false
+	case reflect.Array:
+		return tp.Len() > 0 && typeHasPointers(tp.Elem())
+	case reflect.Struct:
+		for i := 0; i < tp.NumField(); i++ {
+			if typeHasPointers(tp.Field(i).Type) {
+				return true
+			}
+		}
+		return false
+	}
+	return true
 }
 
 // Matches the archetype node against a filter.
